@@ -779,6 +779,10 @@ def history_round(rep, r, tier):
                 sorted(st._files_info, key=lambda fi: st._verif_ids.get(id(fi[0]), 0))]
     for ci in range(n):
         series = G.gen_series(r, tier) if ci % 5 else G.gen_series(r, tier, S=1, T=1, V=1)   # single-file stacks too
+        if ci % 5 == 2:
+            # a guessed per-file time key (instance numbers) that falls with the slice position: the order of the files within a
+            # volume is then decided by the second sorting stage alone
+            series = G.gen_series(r, tier, S=r.choice([2, 3]), T=2, V=1, ordering='guess_file', inst_desc=True)
         nfiles = len(series['files'])
         if nfiles > 1 and ci % 3 == 1:
             # a pixel spacing that differs between the files by less than the tolerance of the congruence check (rounding in
